@@ -90,3 +90,18 @@ Qed.
 
 Lemma forallb_ext' {A} (f g : A -> bool) l : (forall x, f x = g x) -> forallb f l = forallb g l.
 Proof. intros H. induction l as [|x l IH]; simpl; [reflexivity|]. rewrite H, IH. reflexivity. Qed.
+
+Lemma NoDup_app_snoc {A} (l : list A) x : NoDup l -> ~ In x l -> NoDup (l ++ [x]).
+Proof.
+  intros Hn Hx. induction Hn as [|y l Hy Hn IH]; cbn; [constructor; [intros []|constructor]|].
+  constructor.
+  - intros Hin. apply in_app_or in Hin. destruct Hin as [Hin|[<-|[]]]; [contradiction|]. apply Hx. left. reflexivity.
+  - apply IH. intros Hin. apply Hx. right. exact Hin.
+Qed.
+
+Lemma remove_first_in x y l : In y (remove_first x l) -> In y l.
+Proof.
+  induction l as [|z l IH]; cbn; [intros []|].
+  destruct (Nat.eqb x z); [intros H; right; exact H|].
+  intros [<-|H]; [left; reflexivity|right; apply IH; exact H].
+Qed.
